@@ -193,7 +193,7 @@ Lemma gpos_nonneg : forall y l i, 0 <= i -> 0 <= gpos y l i.
 Proof. intros y l. induction l as [|z t IH]; intros i Hi; simpl; [lia|]. destruct (N.eqb y z); [lia|]. apply IH. lia. Qed.
 
 Lemma capture_run : forall fc ce stk gl h o fr L l addrs,
-  nth_error h (r_gp fr) = Some (HVec gl) ->
+  gl = [] \/ nth_error h (r_gp fr) = Some (HVec gl) ->
   Forall2 (resolves fc L ce stk gl) l addrs ->
   forall pushed pc,
   code_at prog pc (capture fc (L + Z.of_nat (length pushed)) ce l) ->
@@ -211,6 +211,7 @@ Proof.
         rewrite nth_error_app2 by lia. replace (length pushed + Z.to_nat (L - i) - length pushed)%nat
           with (Z.to_nat (L - i)) by lia. exact Hn.
       - assert (Hg := gpos_nonneg y (fc_fvs fc) 0 ltac:(lia)).
+        destruct Hgp as [-> | Hgp]; [destruct (Z.to_nat _); discriminate Hy|].
         eapply step_id_global with (i := Z.to_nat (gpos y (fc_fvs fc) 0)); [| exact Hgp | exact Hy].
         rewrite Z2Nat.id by lia. exact Hi. }
     eapply star_step; [exact Hstep|].
@@ -226,7 +227,7 @@ Proof. intros fc ce l. induction l as [|y t IH]; intros L; simpl; [reflexivity|]
 
 (* func_emit_native: one new vector holding the captured ADDRESSES, one new function object *)
 Lemma closure_run : forall FT TL fc ce stk gl h o fr L g addrs pc k,
-  nth_error h (r_gp fr) = Some (HVec gl) ->
+  gl = [] \/ nth_error h (r_gp fr) = Some (HVec gl) ->
   Forall2 (resolves fc L ce stk gl) (fvs_fd TL g) addrs ->
   fidx FT (fd_name g) = Z.of_nat k ->
   code_at prog pc (closure_code FT TL fc L ce g) ->
@@ -348,7 +349,7 @@ Fixpoint filled (H : list hcell) (lim s : nat) (addrss : list (list nat)) (ks : 
    the run (slots on top), every closure resolves its captures against Sk — where the siblings' names are
    the slot cells, whatever they hold at that moment *)
 Lemma run_code_run : forall ce gl o fr L Sk s0 k h0,
-  nth_error h0 (r_gp fr) = Some (HVec gl) -> s0 = length h0 ->
+  gl = [] \/ nth_error h0 (r_gp fr) = Some (HVec gl) -> s0 = length h0 ->
   forall rest addrss ks s H pc,
   (s + length rest = s0 + k)%nat -> (s0 <= s)%nat -> (s0 + k <= length H)%nat ->
   (forall a, (a < s0)%nat -> nth_error H a = nth_error h0 a) ->
@@ -372,8 +373,8 @@ Proof.
     cbn [run_code_f length] in *. replace (S (length rest) - 1)%nat with (length rest) in * by lia.
     assert (Hc1 := code_at_app_l _ _ _ _ Hc). assert (Hc2 := code_at_app_r _ _ _ _ Hc).
     apply code_at_cons in Hc2. destruct Hc2 as [Hrw Hc3].
-    assert (HgpH : nth_error H (r_gp fr) = Some (HVec gl)).
-    { rewrite Hpre; [exact Hgp|]. apply nth_error_Some. congruence. }
+    assert (HgpH : gl = [] \/ nth_error H (r_gp fr) = Some (HVec gl)).
+    { destruct Hgp as [Hgp | Hgp]; [left; exact Hgp | right]. rewrite Hpre; [exact Hgp|]. apply nth_error_Some. congruence. }
     assert (R1 := closure_run X prog FT TL fc ce Sk gl H o fr L fd ad pc kk HgpH Had Hkk Hc1).
     set (H1 := H ++ [HVec ad; HFun (length H) (faddr kk)]) in *.
     set (pc1 := (pc + length (closure_code FT TL fc L ce fd))%nat) in *.
@@ -412,7 +413,7 @@ Qed.
    below s0 is untouched, slot i holds function i with a vector of the addresses its captures resolve to — a
    sibling's name resolves to the sibling's SLOT CELL (func_cenv), also for a sibling that is filled later *)
 Theorem sibling_run : forall ce gl stk h o fr L fds addrss ks pc,
-  nth_error h (r_gp fr) = Some (HVec gl) ->
+  gl = [] \/ nth_error h (r_gp fr) = Some (HVec gl) ->
   let k := length fds in
   let Sk := rev (seq (length h) k) ++ stk in
   Forall2 (fun fd addrs => Forall2 (resolves fc L ce Sk gl) (fvs_fd TL fd) addrs) fds addrss ->
@@ -441,6 +442,22 @@ Proof.
       exact Hst.
     + intros a Ha'. rewrite Hlow by exact Ha'. unfold H0. apply nth_error_app1. exact Ha'.
     + exact Hfill.
+Qed.
+
+(* the vectors of a filled run, as a list *)
+Lemma filled_vecs : forall addrss ks H lim s,
+  filled H lim s addrss ks ->
+  exists vs, length vs = length addrss /\
+    forall j ad kk, nth_error addrss j = Some ad -> nth_error ks j = Some kk ->
+      exists v, nth_error vs j = Some v /\ nth_error H (s + j) = Some (HFun v (faddr kk)) /\
+                nth_error H v = Some (HVec ad).
+Proof.
+  induction addrss as [|a0 at_ IH]; intros ks H lim s HF; destruct ks as [|k0 kt]; simpl in HF; try contradiction.
+  - exists []. split; [reflexivity|]. intros j ad kk Ha. destruct j; discriminate Ha.
+  - destruct HF as [(v & H1 & H2 & _) HF]. destruct (IH kt H lim (S s) HF) as (vs & Hl & Hvs).
+    exists (v :: vs). split; [simpl; congruence|]. intros j ad kk Ha Hk. destruct j as [|j]; simpl in Ha, Hk.
+    + inversion Ha; inversion Hk; subst. exists v. rewrite Nat.add_0_r. auto.
+    + destruct (Hvs j ad kk Ha Hk) as (v' & A & B & C). exists v'. replace (s + S j)%nat with (S s + j)%nat by lia. auto.
 Qed.
 
 End Steps2.
